@@ -16,7 +16,7 @@ Proof.
   autorewrite with prj. destruct (writer c); [left|right|right]; repeat split; try discriminate; reflexivity.
 Qed.
 
-Ltac norm := unfold finish_close, finalize in *; cbn [kd ty st rep in_reg reader pc writer at_ res closers delivered sent seen_closed viol twice bad_deliv bad_sent late_accept late_connect race_dc abandoned report set_reader set_pc set_writer set_att set_res set_closers set_reg set_ty bump_delivered bump_sent set_ghosts] in *.
+Ltac norm := unfold finish_close, finalize in *; cbn [kd ty st rep in_reg reader pc writer at_ res closers delivered sent seen_closed viol twice bad_deliv bad_sent report set_reader set_pc set_writer set_att set_res set_closers set_reg set_ty bump_delivered bump_sent] in *.
 
 (* case split on the three behaviours of do_disconnect applied to [x] *)
 Ltac dd x :=
@@ -39,7 +39,6 @@ Definition inv1 (c : conn) : bool :=
   | ACreated, UNINIT => true
   | ACreated, _ => false
   | AConnecting, (UNINIT | CONNECTED) => false
-  | (AAwaitInit | ARet | AOwnClose ThenRet), (CONNECTING | CONNECTED) => false
   | _, _ => true
   end && match st c with UNINIT => Nat.eqb (closers c) 0 | _ => true end.
 
@@ -52,7 +51,7 @@ Ltac ev_cases c :=
   | |- context [match closers c with _ => _ end] => destruct (closers c) eqn:?
   | |- context [match rep c with _ => _ end] => destruct (rep c) eqn:?
   | |- context [match in_reg c with _ => _ end] => destruct (in_reg c) eqn:?
-  | |- context [match ?a with ThenRaise => _ | ThenRet => _ end] => destruct a
+  | |- context [match ?a with ThenRaise => _ | ThenRet => _ | ThenCancel => _ end] => destruct a
   | |- context [if closing (st c) then _ else _] => destruct (closing (st c)) eqn:?
   | |- context [match st c with _ => _ end] => destruct (st c) eqn:?
   | |- context [match ?t with TP => _ | TF => _ | TD => _ end] => destruct t eqn:?
@@ -80,22 +79,19 @@ Proof.
   all: fin c.
 Qed.
 
-(* P2: under "no late CONNECTED" every report moved forward, at most one disconnect() is in flight
-   and it is in flight exactly while the state is CLOSING; for peer connections CLOSED is final *)
-Definition nolateb (c : conn) : bool := negb (late_accept c) && negb (late_connect c).
-
+(* P2: every report moved forward, at most one disconnect() is in flight and it is in flight exactly while
+   the state is CLOSING; for peer connections CLOSED is final and nothing is delivered / written after it *)
 Definition inv2 (c : conn) : bool :=
   inv1 c &&
-  (negb (nolateb c) ||
-   (negb (viol c) &&
-    match closers c, st c with
-    | 0, CLOSING => false
-    | 0, _ => true
-    | 1, CLOSING => true
-    | _, _ => false
-    end &&
-    (is_server (kd c) || (negb (twice c) && (negb (seen_closed c) || cst_eqb (st c) CLOSED)
-                          && Nat.eqb (bad_deliv c) 0 && Nat.eqb (bad_sent c) 0)))) &&
+  (negb (viol c) &&
+   match closers c, st c with
+   | 0, CLOSING => false
+   | 0, _ => true
+   | 1, CLOSING => true
+   | _, _ => false
+   end &&
+   (is_server (kd c) || (negb (twice c) && (negb (seen_closed c) || cst_eqb (st c) CLOSED)
+                         && Nat.eqb (bad_deliv c) 0 && Nat.eqb (bad_sent c) 0))) &&
   (negb (seen_closed c) || negb (cst_eqb (st c) UNINIT)) &&
   match at_ c with AOwnClose _ => negb (Nat.eqb (closers c) 0) | _ => true end.
 
@@ -114,12 +110,10 @@ Ltac fin2 c :=
           | H : context [closers c] |- _ => destruct (closers c) as [|[|?]]
           | H : context [at_ c] |- _ => destruct (at_ c)
           | H : context [kd c] |- _ => destruct (kd c)
-          | H : context [late_accept c] |- _ => destruct (late_accept c)
-          | H : context [late_connect c] |- _ => destruct (late_connect c)
           | H : context [viol c] |- _ => destruct (viol c)
           | H : context [seen_closed c] |- _ => destruct (seen_closed c)
           | H : context [twice c] |- _ => destruct (twice c)
-          | H : context [match ?a with ThenRaise => _ | ThenRet => _ end] |- _ => destruct a
+          | H : context [match ?a with ThenRaise => _ | ThenRet => _ | ThenCancel => _ end] |- _ => destruct a
           | H : context [match ?n with O => _ | S _ => _ end] |- _ => destruct n
           | H : context [Nat.eqb (bad_deliv c) 0] |- _ => destruct (Nat.eqb (bad_deliv c) 0)
           | H : context [Nat.eqb (bad_sent c) 0] |- _ => destruct (Nat.eqb (bad_sent c) 0)
@@ -130,7 +124,48 @@ Proof.
   intros H. unfold step. destruct (created_guard c e) eqn:G; [exact H|]. unfold created_guard in G.
   destruct e; try destruct m; try destruct r; try destruct x; ev_cases c; try assumption.
   all: try (dd c; cbn [fst snd]); try (dd (bump_sent c); cbn [fst snd]); try assumption.
-  all: unfold inv2, inv1, nolateb in *; repeat (progress (norm; ev_cases c)); norm.
+  all: unfold inv2, inv1 in *; repeat (progress (norm; ev_cases c)); norm.
   all: fin2 c.
 Qed.
 
+
+(* P3: the registry.  A peer connection is registered exactly while its attempt has created it and not yet
+   entered connect(), or is in open_connection with the object still CONNECTING, or it has a writer (open or
+   closing); the server connection never is.  A closing writer means a disconnect() is in flight. *)
+Definition inv3 (c : conn) : bool :=
+  (if is_server (kd c) then negb (in_reg c)
+   else Bool.eqb (in_reg c)
+     (match at_ c, st c with ACreated, _ => true | AConnecting, CONNECTING => true | _, _ => false end ||
+      match writer c with WNone => false | _ => true end)) &&
+  match writer c, closers c with WClosing, O => false | _, _ => true end.
+
+Ltac fin3 c :=
+  repeat match goal with
+  | E : at_ c = _ |- _ => rewrite ?E in *; clear E
+  | E : st c = _ |- _ => rewrite ?E in *; clear E
+  | E : closers c = _ |- _ => rewrite ?E in *; clear E
+  | E : kd c = _ |- _ => rewrite ?E in *; clear E
+  | E : writer c = _ |- _ => rewrite ?E in *; clear E
+  | E : in_reg c = _ |- _ => rewrite ?E in *; clear E
+  end;
+  norm; unfold is_server, cst_eqb, rank, closing in *; cbn in *;
+  try discriminate; try reflexivity; try assumption; try congruence;
+  repeat (match goal with
+          | H : ?w <> ?w |- _ => now elim H
+          | H : context [kd c] |- _ => destruct (kd c)
+          | H : context [at_ c] |- _ => destruct (at_ c)
+          | H : context [writer c] |- _ => destruct (writer c)
+          | H : context [in_reg c] |- _ => destruct (in_reg c)
+          | H : context [closers c] |- _ => destruct (closers c)
+          | H : context [st c] |- _ => destruct (st c)
+          | H : context [match ?a with ThenRaise => _ | ThenRet => _ | ThenCancel => _ end] |- _ => destruct a
+          end; cbn in *; try discriminate; try reflexivity; try assumption; try congruence).
+
+Lemma inv3_step c e : inv3 c = true -> inv3 (step c e) = true.
+Proof.
+  intros H. unfold step. destruct (created_guard c e) eqn:G; [exact H|]. unfold created_guard in G.
+  destruct e; try destruct m; try destruct r; try destruct x; ev_cases c; try assumption.
+  all: try (dd c; cbn [fst snd]); try (dd (bump_sent c); cbn [fst snd]); try assumption.
+  all: unfold inv3 in *; repeat (progress (norm; ev_cases c)); norm.
+  all: fin3 c.
+Qed.
